@@ -156,8 +156,101 @@ def _translate_get_mesh():
     return plain, disp
 
 
+def _translate_selection():
+    """the 1-D point selection of DataMixin._interpret_data (direct_model.py), evaluated symbolically (harness/nptrans.py)
+    once for each combination of 'the data has a mask' / 'the data has intensities': returns {(has_mask, has_y): expr}."""
+    import ast
+    from . import nptrans
+    tree = ast.parse(open(os.path.join(common.REPO, "sasmodels", "direct_model.py")).read())
+    fn = None
+    for n in ast.walk(tree):
+        if isinstance(n, ast.FunctionDef) and n.name == "_interpret_data":
+            fn = n
+    if fn is None:
+        raise Untranslatable("_interpret_data not found")
+    br = [n for n in ast.walk(fn) if isinstance(n, ast.If) and ast.unparse(n.test) == "self.data_type == 'Iq'"]
+    if len(br) != 1:
+        raise Untranslatable("%d branches for data_type == 'Iq'" % len(br))
+    body = br[0].body
+    k = next((i for i, b in enumerate(body) if isinstance(b, ast.If) and ast.unparse(b.test) == "getattr(data, 'dx', None) is not None"), None)
+    if k is None:
+        raise Untranslatable("the resolution dispatch does not follow the selection")
+    sel = body[:k]
+    txt = [ast.unparse(b) for b in sel]
+    if "mask = getattr(data, 'mask', None)" not in txt:
+        raise Untranslatable("the mask is not read with getattr(data, 'mask', None)")
+    for b in body[k:]:
+        if any(isinstance(n, ast.Name) and isinstance(n.ctx, ast.Store) and n.id == "index" for n in ast.walk(b)):
+            raise Untranslatable("index is changed after the selection")
+    out = {}
+    try:
+        for has_mask in (False, True):
+            for has_y in (False, True):
+                ev = nptrans.Evaluator({"data.x": ("i",), "data.qmin": (), "data.qmax": (), "mask": ("i",), "data.y": ("i",), "data.dy": ("i",)},
+                                       leaf_calls={"np.isnan": "ynan"})
+                ev.bool_leaves = {"ynan"}
+                ev.assume = {"mask is not None": has_mask, "data.y is not None": has_y}
+                for st in sel:
+                    t = ast.unparse(st)
+                    if t == "mask = getattr(data, 'mask', None)":
+                        continue
+                    if isinstance(st, ast.If):
+                        # only the statements that touch `index` matter here (Iq / dIq are the data at the selected points)
+                        inner = [b for b in (st.body if ev.truth(st.test) else st.orelse)
+                                 if any(isinstance(n, ast.Name) and n.id == "index" and isinstance(n.ctx, ast.Store) for n in ast.walk(b))]
+                        ev.run(inner)
+                    else:
+                        ev.stmt(st)
+                r = ev.env.get("index")
+                if r is None or r.axes != ("i",):
+                    raise Untranslatable("index is not one flag per data point")
+                if "ynan" in ev.leaf_args and ev.leaf_args["ynan"][1] != ("el", "data.y", ()):
+                    raise Untranslatable("np.isnan is applied to something else than data.y")
+                out[(has_mask, has_y)] = r.e
+    except nptrans.Untranslatable as exc:
+        raise Untranslatable(str(exc))
+    return out
+
+
+def gen_selection():
+    from . import nptrans
+    lines = ["(* GENERATED by harness/c10.py from sasmodels/direct_model.py (DataMixin._interpret_data: which 1-D data points get a theory value) *)",
+             "From Coq Require Import List Bool.", "From SM Require Import Base.Num.", ""]
+    note = None
+    try:
+        t = _translate_selection()
+
+        def pr(e):
+            # `mask == 0` is printed as the negation of the boolean "this point is masked"
+            def sub(x):
+                if x == ("cmp", "==", ("el", "mask", ()), ("num", "0.0")):
+                    return ("not", ("el", "masked", ()))
+                if isinstance(x, tuple):
+                    return tuple(sub(y) for y in x)
+                return x
+            return nptrans.coq(sub(e), {("data.x", ()): "x", ("data.qmin", ()): "qmin", ("data.qmax", ()): "qmax", ("masked", ()): "masked", ("ynan", ()): "ynan"}, {})
+        body = "if has_mask then (if has_y then %s else %s) else (if has_y then %s else %s)" % (pr(t[(True, True)]), pr(t[(True, False)]), pr(t[(False, True)]), pr(t[(False, False)]))
+    except (Untranslatable, nptrans.Untranslatable, OSError, SyntaxError) as exc:
+        note = "%s: %s" % (type(exc).__name__, exc)
+        body = "leb O qmin x && leb O x qmax && (negb has_mask || negb masked) && (negb has_y || negb ynan)"
+    lines.append("Definition selection_translated : bool := %s." % ("true" if note is None else "false"))
+    if note:
+        lines.append("(* not translated: %s *)" % note.replace("*)", "* )"))
+    lines += ["Definition code_keep1d {T : Type} (O : Ops T) (qmin qmax x : T) (has_mask masked has_y ynan : bool) : bool :=", "  %s." % body, ""]
+    common.write_if_changed(os.path.join(common.THEORIES, "Gen", "C10_select.v"), "\n".join(lines))
+    return note
+
+
+SELECT_NOTE = [None]
+
+
 def gen():
-    """Regenerate Gen/C10_code.v from the text of direct_model.py (get_mesh, _pop_par_weights)."""
+    """Regenerate Gen/C10_code.v (get_mesh, _pop_par_weights) and Gen/C10_select.v (_interpret_data) from direct_model.py."""
+    SELECT_NOTE[0] = gen_selection()
+    return _gen_names()
+
+
+def _gen_names():
     lines = ["(* GENERATED by harness/c10.py from sasmodels/direct_model.py: the keys _pop_par_weights consumes for one call parameter *)",
              "From Coq Require Import String List Bool.", "Import ListNotations.", "From SM Require Import C10.Model.", "Local Open Scope string_scope.", ""]
     note = None
@@ -189,6 +282,10 @@ def main(run):
     thorough = run.tier == "thorough"
     note = []
     run.prove(["C10/Property.v"], gen=lambda: note.append(gen()))
+    if SELECT_NOTE[0]:
+        run.notes.append("the 1-D point selection of _interpret_data not translated (%s): C10_code_selection is vacuous in this run, the selection correspondence decides" % SELECT_NOTE[0])
+    else:
+        run.notes.append("the 1-D point selection of DataMixin._interpret_data translated from the current direct_model.py (Gen/C10_select.v, symbolic numpy evaluation per combination of mask / intensities present) and proved equal to the model (C10_code_selection)")
     if note and note[0]:
         run.notes.append("get_mesh / _pop_par_weights not translated (%s): the source-text obligation C10_code_accepted is vacuous in this run, the behavioural tie decides" % note[0])
     else:
